@@ -478,6 +478,10 @@ def get_item(ex, state, v, k):
         if o.kind == "dict":
             from . import models
             return models.dict_getitem(ex, state, v, k)
+        if o.kind == "alist":
+            i = ex.num(k)
+            ex.raise_if(state, z3.Or(i >= o.n, i < -o.n), "IndexError")
+            return value_of_elem(o.elem, z3.Select(o.arr, ex.index_term(state, i, o.n)))
         if o.kind == "barray":
             i = ex.num(k)
             ex.raise_if(state, z3.Or(i >= o.n, i < -o.n), "IndexError")
